@@ -162,11 +162,14 @@ func (R *Run) rulePublishAfterSuccess(fnNames ...string) int {
 				c := ci.Common()
 				name := calleeName(c)
 				if name != "os.Rename" && name != "(hotline.FileStore).Rename" {
-					continue
-				}
-				src, dst := P.sym(c.Args[0]), P.sym(c.Args[1])
-				if src != dst+incompleteSuffixSym {
-					continue
+					if !P.isPublishHelperCall(ci) {
+						continue
+					}
+				} else {
+					src, dst := P.sym(c.Args[0]), P.sym(c.Args[1])
+					if src != dst+incompleteSuffixSym {
+						continue
+					}
 				}
 				n++
 				construct := fmt.Sprintf("%s: publish rename #%d", fname(f), nCreateIn(f, ci))
@@ -200,6 +203,27 @@ func (R *Run) rulePublishAfterSuccess(fnNames ...string) int {
 		}
 	}
 	return n
+}
+
+// isPublishHelperCall: the call goes to a small repo helper whose body renames "<param>.incomplete" to "<param>".
+func (P *Prog) isPublishHelperCall(ci ssa.CallInstruction) bool {
+	for _, cal := range P.callees(ci) {
+		if len(cal.Blocks) > 8 {
+			continue
+		}
+		for _, cj := range callsIn(cal) {
+			c := cj.Common()
+			n := calleeName(c)
+			if n != "os.Rename" && n != "(hotline.FileStore).Rename" {
+				continue
+			}
+			src, dst := P.sym(c.Args[0]), P.sym(c.Args[1])
+			if src == dst+incompleteSuffixSym && strings.HasPrefix(dst, "param:") {
+				return true
+			}
+		}
+	}
+	return false
 }
 
 // ruleIncompleteAppend: the data-fork target of every receiveFile call was opened on "<final>.incomplete"
@@ -406,8 +430,11 @@ func (R *Run) ruleNoOverwrite() {
 		reach := reachable(fn, cut)
 		for _, ci := range callsIn(fn) {
 			name := calleeName(ci.Common())
+			if P.isPublishHelperCall(ci) {
+				name = "os.Rename" // publishing through a helper counts as the rename
+			}
 			for _, g := range sp.guarded {
-				if name != g {
+				if name != g && !(name == "os.Rename" && g == "(hotline.FileStore).Rename") {
 					continue
 				}
 				R.check(nStat > 0 && !reach[ci.Block()], "no-overwrite", fmt.Sprintf("%s: %s #%d", sp.fn, name, nCreateIn(fn, ci)), P.ipos(ci),
